@@ -58,13 +58,24 @@ def run_battery(seed, k_max):
 
 
 CORE = 7  # the first CORE conversions of HIST_ALPHABET get one more level of depth
+N_BASE = len(HIST_ALPHABET)
+# the twin family (c12_battery.TWIN_SRC): 24 conversions over two interfaces that share every name and type name
+HIST_ALPHABET = HIST_ALPHABET + [cid for cid, _ in bat.twin_conversions()]
 
 
 class _Seqs(core.Space):
     def __init__(self, n, maxlen):
         """all sequences up to ``maxlen - 1`` over the whole alphabet, plus length ``maxlen`` over the core conversions"""
-        self.items = [list(t) for L in range(1, maxlen) for t in itertools.product(range(n), repeat=L)]
+        self.items = [list(t) for L in range(1, maxlen) for t in itertools.product(range(N_BASE), repeat=L)]
         self.items += [list(t) for t in itertools.product(range(CORE), repeat=maxlen)]
+        # twin family: every ordered pair of its conversions (thorough: and every pair of a twin and a base conversion,
+        # and all triples of the twin parse conversions)
+        tw = list(range(N_BASE, n))
+        self.items += [[a] for a in tw] + [[a, b] for a in tw for b in tw]
+        if maxlen > 3:
+            self.items += [[a, b] for a in tw for b in range(N_BASE)] + [[b, a] for a in tw for b in range(N_BASE)]
+            tp = [i for i in tw if "/parse." in HIST_ALPHABET[i]]
+            self.items += [[a, b, c] for a in tp for b in tp for c in tp]
 
     def __len__(self):
         return len(self.items)
